@@ -521,6 +521,7 @@ class Interp:
             if adt['kind'] == 'Enum':
                 ds = [v['discr'] for v in adt['variants']]
                 sym.DISCR_RANGE[('a', name)] = (min(ds), max(ds))
+                sym.ENUM_DISCR[('a', name)] = [(v['name'], v['discr']) for v in adt['variants']]
                 return EnumV(base, None, sym=('a', name), ty=nty)
         if nty.startswith('(') and nty.endswith(')'):
             _, parts = split_generics('T<' + nty[1:-1] + '>')
@@ -1998,10 +1999,13 @@ class Interp:
             sym.ATOM_RANGE[nm] = (0, 255) if (lo >= 0 and hi <= 255) else (0, sym.BIG)
             olds.append((st, old, a))
             self._set(st, a)
+        self._summarising = getattr(self, '_summarising', 0) + 1
         try:
             run()
         except ReturnEx:
             self.top('early return inside a loop over a sequence of unknown length', e)
+        finally:
+            self._summarising -= 1
         # integers: unchanged, or accumulator
         for st, old, a in olds:
             new = self._get(st)
@@ -2123,7 +2127,8 @@ class Interp:
         # a method of a crate-local trait called on a receiver whose concrete type is only known here (e.g. a required
         # method called from a provided one that was inlined for a concrete Self): the impl for the receiver's type
         tr = e.get('trait') if isinstance(e, dict) else None
-        if tr and args and (tr in self.f.trait_defaults or any(t_ == tr for (t_, _) in self.f.trait_impls)):
+        resolved_foreign = name != cn and name.startswith(('core::', 'alloc::', 'std::', 'zerocopy::')) and not name.startswith('<')
+        if tr and args and not resolved_foreign and (tr in self.f.trait_defaults or any(t_ == tr for (t_, _) in self.f.trait_impls)):
             rv = args[0]
             while isinstance(rv, RefV): rv = rv.place.get()
             rty = rv.ty if isinstance(rv, (StructV, EnumV)) else None
